@@ -73,6 +73,7 @@ type Exec struct {
 	frameStack []*loopFrame
 	curPos    token.Pos
 	axiomsDone map[string]bool
+	Trivial    int // obligations whose goal folded to true during generation
 	pathInline bool
 	pathSteps  int
 }
@@ -124,7 +125,10 @@ func (x *Exec) addObl(st *State, kind, sub string, goal *Term, pos token.Pos, te
 		return
 	}
 	if goal.IsTrue() {
-		// still count trivially discharged obligations? They carry no information; skip.
+		// decided by the engine's own simplifier (constant folding along a concrete path)
+		if !st.PC.IsFalse() {
+			x.Trivial++
+		}
 		return
 	}
 	if st.PC.IsFalse() {
